@@ -57,6 +57,17 @@ pub assume_specification[std::fs::Metadata::is_file](m: &std::fs::Metadata) -> (
 pub assume_specification[std::fs::Metadata::len](m: &std::fs::Metadata) -> (r: u64)
     ensures r == md_len(*m), r <= 0x7fff_ffff_ffff_ffff;
 
+// md.len() after the R-SHIM rename of `.len()`
+pub trait RwsMdLen {
+    fn rws_len(&self) -> (r: u64)
+        ensures r <= 0x7fff_ffff_ffff_ffff;
+}
+impl RwsMdLen for std::fs::Metadata {
+    fn rws_len(&self) -> (r: u64)
+        ensures r == md_len(*self),
+    { self.len() }
+}
+
 #[verifier::external_body]
 pub fn rws_metadata<P: RwsPath + ?Sized>(path: &P) -> (r: Result<std::fs::Metadata, std::io::Error>)
     requires fs_allowed(path.pview()),
@@ -122,7 +133,9 @@ impl FileExt {
     // working directory ++ path
     #[verifier::external_body]
     pub fn get_static_filepath(path: &str) -> (r: Result<String, String>)
-        ensures r.is_ok() ==> r.unwrap()@ == cwd() + path@,
+        ensures
+            r.is_ok(),      // ASSUMED: the working directory exists and is accessible
+            r.unwrap()@ == cwd() + path@,
     { unimplemented!() }
 
     #[verifier::external_body]
